@@ -14,6 +14,7 @@ func Byte(name string) byte                        { sym(); return 0 }
 func Bool(name string) bool                        { sym(); return false }
 func Str(name string) string                       { sym(); return "" }
 func Time(name string) time.Time                   { sym(); return time.Time{} }
+func TimeZ(name string) time.Time                  { sym(); return time.Time{} }
 func ZeroTime() time.Time                          { sym(); return time.Time{} }
 func Now() time.Time                               { sym(); return time.Time{} }
 func Bytes(name string, n int) []byte              { sym(); return nil }
@@ -33,6 +34,7 @@ func Implies(a, b bool) bool                       { sym(); return false }
 func Not(a bool) bool                              { sym(); return false }
 func Iff(a, b bool) bool                           { sym(); return false }
 func Eq(a, b interface{}) bool                     { sym(); return false }
+func EqLoose(a, b interface{}) bool                { sym(); return false }
 func BytesEq(a, b []byte) bool                     { sym(); return false }
 func StrEq(a, b string) bool                       { sym(); return false }
 func IteInt(c bool, a, b int) int                  { sym(); return 0 }
@@ -42,3 +44,14 @@ func Injective(uf string)                          { sym() }
 func UFBytes(name string, n int, in ...[]byte) []byte { sym(); return nil }
 func UFBool(name string, in ...[]byte) bool        { sym(); return false }
 func Note(s string)                                { sym() }
+
+// native-only helpers (no-ops symbolically)
+func RegisterUFBytes(name string, f func(in ...[]byte) []byte) {}
+func RegisterUFBool(name string, f func(in ...[]byte) bool)    {}
+func Run(h func()) interface{}                                 { sym(); return nil }
+func Reset()                                                   {}
+
+var (
+	Violated     []string
+	AssumeFailed bool
+)
